@@ -97,7 +97,7 @@ def _dimensions(ctx, mod):
     table[('_check_limit', 'compare')] = cmp_
     dims = sorted(table[('_calc_free', 'init')])
     ctx.require(len(dims) == 3, 'three dimensions in _calc_free (found %s)'
-                % dims)
+                % dims, rule='C19.1')
     ref = table[('_calc_free', 'init')]
     for (fname, stage), rows in sorted(table.items()):
         func = mod.functions[fname]
@@ -125,7 +125,7 @@ def _rejection(ctx, chk, dims):
     graph = ctx.cfg(chk)
     raises = [n for n in graph.nodes if n.kind == 'raise_stmt' and
               isinstance(n.ast, ast.Raise)]
-    ctx.require(len(raises) >= 3, 'rejections in _check_limit')
+    ctx.require(len(raises) >= 3, 'rejections in _check_limit', rule='C19.2')
     seen = set()
     for node in raises:
         raised = node.ast.exc
@@ -198,7 +198,7 @@ def _check_before_write(ctx, mod):
     handlers = _handlers(mod)
     ctx.require(set(handlers) == {'create', 'update'},
                 'reservation create/update handlers (found %s)' %
-                sorted(handlers))
+                sorted(handlers), rule='C19.3')
     cap = mod.functions.get('_check_capacity')
     ctx.require(cap is not None, 'allocation._check_capacity')
     for name, func in sorted(handlers.items()):
@@ -210,7 +210,8 @@ def _check_before_write(ctx, mod):
             graph, lambda c: K.is_meth(c, 'create', 'update') and
             'admin_cell_alloc' in (K.recv_text(c) or '').replace(
                 '()', '') and len(c.args) == 2)]
-        ctx.require(writes, 'admin write in reservation %s' % name)
+        ctx.require(writes, 'admin write in reservation %s' % name,
+            rule='C19.3')
         for node in writes:
             ok = bool(checks) and K.guarded_by(
                 graph, node, lambda e: e.src in checks and e.kind != 'exc')
@@ -233,7 +234,8 @@ def _check_before_write(ctx, mod):
                    'rsrc_id split', construct='_check_capacity arguments '
                                               'in %s' % name)
     cparams = cap.params()
-    ctx.require(len(cparams) >= 3, 'parameters of _check_capacity')
+    ctx.require(len(cparams) >= 3, 'parameters of _check_capacity',
+        rule='C19.3')
 
     def excluded_ok(expr):
         expr = K.rexpr(cap, expr)
@@ -369,7 +371,7 @@ def _key_guarantee(ctx, mod, handlers, cap, chk):
                     isinstance(sub.ctx, ast.Load):
                 used.add(sub.slice.value)
     ctx.require(len(used) >= 4, 'request keys used by the check (found %s)'
-                % sorted(used))
+                % sorted(used), rule='C19.4')
     for name, func in sorted(handlers.items()):
         req, refs = _schema_required(ctx, func)
         graph = ctx.cfg(func)
@@ -418,14 +420,15 @@ def _trait_limits(ctx, mod, cap):
               c.func.id == '_calc_free_traits' and c.args]
     ctx.require(len(tcalls) == 1 and isinstance(tcalls[0].args[0],
                                                 ast.Name),
-                'per-trait accounting call in _check_capacity')
+                'per-trait accounting call in _check_capacity', rule='C19.5')
     lname = tcalls[0].args[0].id
     comp = None
     for sub in K.walk_no_nested(cap.node):
         if isinstance(sub, ast.Assign) and N.txt(sub.targets[0]) == \
                 lname and isinstance(sub.value, ast.ListComp):
             comp = sub.value
-    ctx.require(comp is not None, 'selection of applicable limits')
+    ctx.require(comp is not None, 'selection of applicable limits',
+        rule='C19.5')
     gen = comp.generators[0]
     var = N.txt(gen.target)
     conds = [K.rtxt(cap, i) for i in gen.ifs]
@@ -469,7 +472,7 @@ def _trait_limits(ctx, mod, cap):
     nz = N.Normaliser()
     inner = [n for n in graph.nodes if n.kind == 'for' and
              "['traits']" in N.txt(n.ast.iter)]
-    ctx.require(inner, 'loop over the traits of a reservation')
+    ctx.require(inner, 'loop over the traits of a reservation', rule='C19.5')
     for loop in inner:
         body = K.loop_body_nodes(loop)
         exits = [e for e in K.loop_exit_edges(loop)
